@@ -239,6 +239,14 @@ impl<NonceSize: Unsigned, Rounds, IsX> StreamCipherSeek for ChaChaAny<NonceSize,
     fn try_seek<T: SeekNum>(&mut self, pos: T) -> Result<(), LoopError> {
         pos.try_into()
             .map_err(|_| LoopError)
+            .and_then(|ct: u64| {
+                // the 32-bit counter variant ends after 2^32 blocks
+                if NonceSize::U32 == 12 && ct > SMALL_LEN * BLOCK64 {
+                    Err(LoopError)
+                } else {
+                    Ok(ct)
+                }
+            })
             .map(|ct| Self::seek(self, ct))
     }
 }
